@@ -45,7 +45,7 @@ def isInterval (lo : Nat) (l : List Nat) : Bool :=
   natsDistinct l && l.all fun e => lo ≤ e && e < lo + l.length
 
 def fieldRefEq : FieldRef → FieldRef → Bool
-  | .ctx v f t, .ctx v' f' t' => v == v' && f == f' && t == t'
+  | .ctx v f t, .ctx v' f' t' => v == v' && f == f' && decide (t = t')
   | .fcount e r, .fcount e' r' => e == e' && r == r'
   | _, _ => false
 
